@@ -57,7 +57,7 @@ ALL = [
     H('drop_wipes_nonce_aes256', ['C16'], tier='thorough'),
     H('drop_wipes_nonce_chacha', ['C16'], tier='thorough'),
     H('drop_wipes_ctx_fields', ['C16']),
-    H('drop_wipes_nonce_exportonly', ['C16'], tier='thorough'),
+    H('drop_wipes_nonce_exportonly', ['C16']),
     H('drop_wipes_shared_secret', ['C16']),
     H('drop_wipes_exporter_sha256', ['C16']),
     H('drop_wipes_exporter_sha384', ['C16'], tier='thorough'),
@@ -66,8 +66,12 @@ ALL = [
     H('aead_ids_and_sizes_table', ['C02', 'C12']),
     H('x25519_dh_zero_check', ['C10', 'C03']),
     H('write_exact_x25519', ['C12']),
+    H('x25519_from_bytes_full', ['C12', 'C13']),
+    H('x25519_decap_zero_dh_rejected', ['C10', 'C13'], timeout=1500),
+    H('x25519_encap_zero_dh_rejected', ['C10', 'C13'], timeout=1500),
     H('write_exact_x25519_wrong_len_panics', ['C12'], tier='thorough'),
     H('nist_sk_from_bytes_p256', ['C09', 'C12'], timeout=1500),
+    H('nist_sk_from_bytes_p384', ['C09', 'C12'], tier='thorough', features='p384,p521', timeout=3000),
 ]
 
 
